@@ -2,6 +2,7 @@
 package c02
 
 import (
+	"context"
 	"errors"
 	"fmt"
 	"net/http"
@@ -331,6 +332,17 @@ func TestC02_PoolMembership(t *testing.T) {
 				return
 			}
 			req := httptest.NewRequest("GET", "http://client/c", nil)
+			if rapid.IntRange(0, 5).Draw(t, "doneContext") == 0 {
+				// the request's context is already over (client gone, or an outer deadline passed): the pool
+				// decides the same way, and an unusable pool still produces an error response
+				ctx, cancel := context.WithCancel(req.Context())
+				if rapid.Bool().Draw(t, "expired") {
+					cancel()
+					ctx, cancel = context.WithDeadline(req.Context(), time.Unix(1, 0))
+				}
+				cancel()
+				req = req.WithContext(ctx)
+			}
 			if cookie != "" {
 				v := cookie
 				if cu, err := url.Parse(cookie); err == nil {
@@ -443,8 +455,15 @@ func TestC02_PoolMembership(t *testing.T) {
 				if idx < 0 {
 					pendingMeter = &adjMeter{bad: rapid.IntRange(0, 2).Draw(t, "badServer") == 0}
 				}
-				err := p.UpsertServer(u, opts...)
-				if err2 := twin.UpsertServer(u, opts...); (err == nil) != (err2 == nil) {
+				// each registration is made with a URL value of its own, which the caller overwrites afterwards
+				// (a variable reused for the next registration): the pool keeps what was registered
+				pu, tu := *u, *u
+				err := p.UpsertServer(&pu, opts...)
+				err2 := twin.UpsertServer(&tu, opts...)
+				for _, x := range []*url.URL{&pu, &tu} {
+					x.Scheme, x.Host, x.Path, x.RawQuery = "http", "reused.invalid:1", "/healthz", "next=1"
+				}
+				if (err == nil) != (err2 == nil) {
 					t.Fatalf("upsert(%s): %v, on the twin: %v", u, err, err2)
 				}
 				meterFails = false
